@@ -4,6 +4,7 @@ import (
 	"fmt"
 	"reflect"
 	"sync"
+	"sync/atomic"
 	"time"
 
 	gcbor "github.com/blinklabs-io/gouroboros/cbor"
@@ -24,7 +25,11 @@ type evRec struct {
 	msgType  int
 	from, to protocol.State
 	err      error
+	ln       int    // Len of the hook event (seg: payload bytes, enq: message bytes)
+	seq      uint64 // global order over all engines (C12 merges two logs)
 }
+
+var evSeq atomic.Uint64
 
 // engine is one fresh protocol.Protocol built from the implementation's
 // configuration with a recorder handler, on its own muxer over an in-memory
@@ -43,6 +48,10 @@ type engine struct {
 	wake     chan struct{}
 	outbound map[protocol.Message]bool
 	handled  int
+
+	// C11 / C12 only: schedule perturbation at the protocol's verif points
+	pert  uint64
+	pertN atomic.Uint64
 }
 
 var engines sync.Map // *protocol.Protocol -> *engine
@@ -54,7 +63,7 @@ func sink(ev protocol.VerifEvent) {
 	}
 	e := x.(*engine)
 	e.mu.Lock()
-	e.evs = append(e.evs, evRec{kind: ev.Kind, msg: ev.Msg, msgType: ev.MsgType, from: ev.From, to: ev.To, err: ev.Err})
+	e.evs = append(e.evs, evRec{kind: ev.Kind, msg: ev.Msg, msgType: ev.MsgType, from: ev.From, to: ev.To, err: ev.Err, ln: ev.Len, seq: evSeq.Add(1)})
 	e.mu.Unlock()
 	select {
 	case e.wake <- struct{}{}:
@@ -63,16 +72,28 @@ func sink(ev protocol.VerifEvent) {
 }
 
 func newEngine(cfg protocol.ProtocolConfig) *engine {
-	e := &engine{wake: make(chan struct{}, 1), outbound: map[protocol.Message]bool{}}
-	e.a, e.b = netsim.Pipe()
+	a, b := netsim.Pipe()
+	e := newEngineOn(cfg, a, nil, 0)
+	e.b = b
+	return e
+}
+
+// newEngineOn builds the engine on a given connection end (C12 connects two
+// engines muxer to muxer); handler nil = plain recorder. b stays nil.
+func newEngineOn(cfg protocol.ProtocolConfig, a *netsim.Conn, handler func(*engine, protocol.Message) error, pert uint64) *engine {
+	e := &engine{wake: make(chan struct{}, 1), outbound: map[protocol.Message]bool{}, pert: pert}
+	e.a = a
 	e.mux = muxer.New(e.a)
 	e.errCh = make(chan error, 10)
 	cfg.Muxer = e.mux
 	cfg.ErrorChan = e.errCh
-	cfg.MessageHandlerFunc = func(protocol.Message) error {
+	cfg.MessageHandlerFunc = func(m protocol.Message) error {
 		e.mu.Lock()
 		e.handled++
 		e.mu.Unlock()
+		if handler != nil {
+			return handler(e, m)
+		}
 		return nil
 	}
 	// a fresh state context (leios-votes keeps its token counter there)
@@ -97,7 +118,9 @@ func (e *engine) close() (clean bool) {
 	e.mux.Stop()
 	e.p.Stop()
 	e.a.Close()
-	e.b.Close()
+	if e.b != nil {
+		e.b.Close()
+	}
 	clean = true
 	t := time.NewTimer(watchdog)
 	defer t.Stop()
